@@ -525,7 +525,7 @@ type c08SchnorrSuite struct {
 }
 
 func (s *c08SchnorrSuite) RandomStream() cipher.Stream { return s.rs }
-func (s *c08SchnorrSuite) Point() kyber.Point           { return s.g.point() }
+func (s *c08SchnorrSuite) Point() kyber.Point          { return s.g.point() }
 
 func c08Wit(g *c08Grp, idx int, c *c08Case, pub0, msg0, sig0 []byte) func() map[string]any {
 	return func() map[string]any {
@@ -621,11 +621,15 @@ func c08SchnorrJob(r *mon.R, g *c08Grp, idx int, heavy bool) {
 			continue
 		}
 		cd := fmt.Sprintf("%d|%s|%s", idx, c.class, c.pos)
-		o := c08Run(func() error { return schnorr.VerifyWithChecks(suite, c08Clone(c.pub), c08Clone(c.msg), c08Clone(c.sig)) })
+		o := c08Run(func() error {
+			return schnorr.VerifyWithChecks(suite, c08Clone(c.pub), c08Clone(c.msg), c08Clone(c.sig))
+		})
 		c08Judge(r, g.name, "schnorr.VerifyWithChecks", c.class, cd, true, c.demand, o, c08Wit(g, idx, c, pub0, msg0, sig0))
-		c08Sample(r, "schnorr/"+c.class, func() any { return map[string]any{"scheme": "schnorr", "group": g.name, "class": c.class, "variant": c.pos,
-			"demand": []string{"accept", "reject", "recorded-only"}[c.demand], "classification": c.why, "accepted": o.accepted, "error": c08Short(o.err),
-			"pub": mon.Hex(c.pub), "msg_len": len(c.msg), "sig": mon.Hex(c.sig)} })
+		c08Sample(r, "schnorr/"+c.class, func() any {
+			return map[string]any{"scheme": "schnorr", "group": g.name, "class": c.class, "variant": c.pos,
+				"demand": []string{"accept", "reject", "recorded-only"}[c.demand], "classification": c.why, "accepted": o.accepted, "error": c08Short(o.err),
+				"pub": mon.Hex(c.pub), "msg_len": len(c.msg), "sig": mon.Hex(c.sig)}
+		})
 		// the point-typed entry point, where the key bytes are what the decoded point re-encodes to
 		if c.class == "msg-bitflip" || c.class == "key-other" || c.class == "key-negated" || c.class == "sig-S+kq" || strings.HasPrefix(c.class, "msg-") {
 			A := g.point()
